@@ -34,6 +34,8 @@ def run(ctx):
     model = common.Model()
     n = ctx.budget(40, 1500)
     eems.run_stream(ctx, model, gen(ctx, n, eems.FUZZY_PRODUCERS), "exec:fuzzy-producers", on_result=oracle(ctx))
+    chain_consumers = [c for c in eems.FUZZY_PRODUCERS if c in eems.FUZZY_CONSUMERS]
+    eems.run_stream(ctx, model, eems.gen_chains(ctx.rng, ctx.budget(60, 2500), chain_consumers), "exec:fuzzy-chains", on_result=oracle(ctx))
     if ctx.disagreements and not ctx.failures:
         # failing-input search: enlarged budget focused on the commands whose correspondence broke
         cmds = sorted(set(d["case"]["cmd"] for d in ctx.disagreements))
